@@ -79,29 +79,29 @@ func baseScripts() []scriptSpec {
 			Zone: faultMix{Honest: 1, TCPAnswer: 1}, TLD: faultMix{Honest: 1, TCPAnswer: 1},
 			Patterns: []patternWeight{{"burst-same", 2}, {"distinct-zone", 2}, {"repeat", 4}, {"pipeline", 2}, {"closers", 1}}, Junk: 12, Iso: 1},
 		{Name: "drop", Tweaks: envTweaks{ZoneServers: zs(1, 2, 3, 1, 2, 3)},
-			Zone: faultMix{Honest: 4, Drop: 6, TCPAnswer: 1, TCPStall: 1}, TLD: faultMix{Honest: 3, Drop: 1, DelayShort: 2, TCPAnswer: 1}},
+			Zone: faultMix{Honest: 4, Drop: 6, TCPAnswer: 1, TCPStall: 1}, TLD: faultMix{Honest: 3, Drop: 1, DelayShort: 2, TCPAnswer: 1}, Iso: 1},
 		{Name: "delay", Tweaks: envTweaks{ZoneServers: zs(1, 2, 3, 1, 2, 3)},
-			Zone: faultMix{Honest: 3, DelayShort: 4, DelayLong: 3, TCPAnswer: 1}, TLD: faultMix{Honest: 1, DelayShort: 4, DelayLong: 1, TCPAnswer: 1}},
+			Zone: faultMix{Honest: 3, DelayShort: 4, DelayLong: 3, TCPAnswer: 1}, TLD: faultMix{Honest: 1, DelayShort: 4, DelayLong: 1, TCPAnswer: 1}, Iso: 1},
 		{Name: "tc-tcp", Tweaks: envTweaks{ZoneServers: zs(1, 2, 3, 1, 2)},
-			Zone: faultMix{Honest: 3, TC: 7, TCPAnswer: 2, TCPStall: 3, TCPReset: 3}, TLD: faultMix{Honest: 3, TC: 2, DelayShort: 2, TCPAnswer: 2, TCPStall: 1, TCPReset: 1}},
+			Zone: faultMix{Honest: 3, TC: 7, TCPAnswer: 2, TCPStall: 3, TCPReset: 3}, TLD: faultMix{Honest: 3, TC: 2, DelayShort: 2, TCPAnswer: 2, TCPStall: 1, TCPReset: 1}, Iso: 1},
 		{Name: "garbage", Tweaks: envTweaks{ZoneServers: zs(1, 2, 3, 2)},
-			Zone: faultMix{Honest: 1, WrongID: 3, WrongQ: 3, Malformed: 3, Other: 2, TCPAnswer: 1}, TLD: faultMix{Honest: 2, WrongID: 1, WrongQ: 1, Malformed: 1, DelayShort: 2, TCPAnswer: 1}},
+			Zone: faultMix{Honest: 1, WrongID: 3, WrongQ: 3, Malformed: 3, Other: 2, TCPAnswer: 1}, TLD: faultMix{Honest: 2, WrongID: 1, WrongQ: 1, Malformed: 1, DelayShort: 2, TCPAnswer: 1}, Junk: 8, Iso: 1},
 		{Name: "rcodes", Tweaks: envTweaks{ZoneServers: zs(1, 2, 3, 3)},
-			Zone: faultMix{Honest: 3, ServFail: 4, Refused: 4, TCPAnswer: 1}, TLD: faultMix{Honest: 3, ServFail: 1, Refused: 1, DelayShort: 2, TCPAnswer: 1}},
+			Zone: faultMix{Honest: 3, ServFail: 4, Refused: 4, TCPAnswer: 1}, TLD: faultMix{Honest: 3, ServFail: 1, Refused: 1, DelayShort: 2, TCPAnswer: 1}, Iso: 1},
 		{Name: "everything", Tweaks: envTweaks{ZoneServers: zs(1, 2, 3, 1, 2, 3), QnameMin: true},
 			Zone: allKinds, TLD: faultMix{Honest: 3, Drop: 1, DelayShort: 3, DelayLong: 1, TC: 1, ServFail: 1, TCPAnswer: 2, TCPStall: 1, TCPReset: 1}, Iso: 1},
 		{Name: "small-maxconcurrent", Tweaks: envTweaks{ZoneServers: zs(2, 3, 2), MaxConcurrent: 4},
 			Zone: faultMix{Honest: 3, Drop: 4, DelayShort: 3, DelayLong: 2, TCPAnswer: 1}, TLD: faultMix{Honest: 2, DelayShort: 2, TCPAnswer: 1},
-			Patterns: []patternWeight{{"distinct-zone", 5}, {"burst-same", 2}, {"spread", 2}, {"closers", 1}}},
+			Patterns: []patternWeight{{"distinct-zone", 5}, {"burst-same", 2}, {"spread", 2}, {"closers", 1}}, Iso: 1},
 		{Name: "zone-quota", Tweaks: envTweaks{ZoneServers: zs(1, 1), MaxConcurrent: 64},
 			Zone: faultMix{Honest: 2, Drop: 6, DelayLong: 2, TCPAnswer: 1, TCPStall: 1}, TLD: faultMix{Honest: 1, TCPAnswer: 1},
-			Patterns: []patternWeight{{"distinct-zone", 8}, {"burst-same", 1}, {"repeat", 1}}, WaveSize: 56},
+			Patterns: []patternWeight{{"distinct-zone", 8}, {"burst-same", 1}, {"repeat", 1}}, WaveSize: 56, Iso: 1},
 		{Name: "tcp-conncap", Tweaks: envTweaks{ZoneServers: zs(1, 2, 3), IngressTCPConns: 6},
 			Zone: faultMix{Honest: 4, DelayShort: 4, Drop: 2, TCPAnswer: 1}, TLD: faultMix{Honest: 1, DelayShort: 1, TCPAnswer: 1},
 			UDPShare: 30, Patterns: []patternWeight{{"burst-same", 3}, {"distinct-zone", 3}, {"pipeline", 2}, {"closers", 2}}},
 		{Name: "udp-shed", Tweaks: envTweaks{ZoneServers: zs(1, 2), TinyMemory: true, IngressWorkers: 2, IngressQueue: 2},
 			Zone: faultMix{Honest: 1, Drop: 8, DelayLong: 1, TCPStall: 1}, TLD: faultMix{Honest: 1, TCPAnswer: 1},
-			UDPShare: 92, Waves: 3, WaveSize: 170, WaveGap: 900, Patterns: []patternWeight{{"distinct-zone", 6}, {"spread", 3}, {"burst-same", 1}}, Junk: 8},
+			UDPShare: 92, Waves: 3, WaveSize: 170, WaveGap: 900, Patterns: []patternWeight{{"distinct-zone", 6}, {"spread", 3}, {"burst-same", 1}}}, // no junk, no closers: the shed account is exact
 		{Name: "closers-slow-walk", Tweaks: envTweaks{ZoneServers: zs(1, 2, 3, 1, 2, 3, 2, 2), QnameMin: true},
 			Zone: faultMix{Honest: 3, Drop: 3, DelayShort: 3, TC: 1, TCPAnswer: 1, TCPStall: 1}, TLD: faultMix{DelayShort: 6, Honest: 1, Drop: 1, TCPAnswer: 1},
 			Patterns: []patternWeight{{"closers", 4}, {"burst-same", 3}, {"distinct-zone", 2}, {"pipeline", 1}}, Iso: 2},
@@ -329,7 +329,9 @@ func buildPlan(rng *rand.Rand, sp *scriptSpec, nZones int) *plan {
 	for w := 0; w < sp.Waves; w++ {
 		base := w * sp.WaveGap
 		pattern := pickPattern(rng, sp.Patterns)
-		if w == 0 && pattern == "repeat" {
+		if pattern == "repeat" && len(asked) == 0 {
+			// nothing to repeat yet: the first wave, or only "closers" /
+			// "pipeline" waves so far (they record no repeatable question)
 			pattern = "distinct-zone"
 		}
 		n := sp.WaveSize
